@@ -113,7 +113,8 @@ PropNames == {"CommittedAgree", "CommitWithinLog", "LogMatching", "ApplyAgreemen
               "LeaderCompleteness", "DurableVote", "OnlyVotersLead", "NonVotingWitnessRoles",
               "ElectionQuorum", "CommitQuorum", "WitnessNoPayload", "WitnessLogMeta", "ReadIndexSafe",
               "ReadIndexRespSafe", "ReadIndexMechanism", "OneCCAtATime", "RemovedNeverReadmitted",
-              "KindsDisjoint", "MembershipHasVoter", "KindOnlyPromotes", "BoundedProgress", "CheckQuorumLease"}
+              "KindsDisjoint", "MembershipHasVoter", "KindOnlyPromotes", "BoundedProgress", "CheckQuorumLease",
+              "SnapshotMembershipInstalled"}
 PropHolds(p) ==
   CASE p = "CommittedAgree" -> CommittedAgree [] p = "CommitWithinLog" -> CommitWithinLog
     [] p = "LogMatching" -> LogMatching [] p = "ApplyAgreement" -> ApplyAgreement
@@ -130,6 +131,7 @@ PropHolds(p) ==
     [] p = "MembershipHasVoter" -> MembershipHasVoter [] p = "KindOnlyPromotes" -> KindOnlyPromotes
     [] p = "BoundedProgress" -> "BoundedProgress" \notin h.bad
     [] p = "CheckQuorumLease" -> CheckQuorumLease
+    [] p = "SnapshotMembershipInstalled" -> SnapshotMembershipInstalled
 \* first violation of each property per trace is recorded
 Judge(ev) ==
   viol' = viol \cup {<<ev.t, ev.i, p>> : p \in {q \in PropNames : ~PropHolds(q)' /\ \A x \in viol : ~(x[1] = ev.t /\ x[3] = q)}}
